@@ -93,9 +93,12 @@ func (w *Wrapper) Marshal(r Record, format uint8) ([]byte, error) {
 		return nil, errors.New("could not dump model, wrapped object format mismatch")
 	}
 
-	data := make([]byte, len(w.Data)+1)
-	data[0] = w.Format
-	copy(data[1:], w.Data)
+	// The format is a varint, as written by dsd.Dump and read by NewRawWrapper
+	// and dsd.Load: formats above 127 take two bytes.
+	packedFormat := varint.Pack8(w.Format)
+	data := make([]byte, len(packedFormat)+len(w.Data))
+	copy(data, packedFormat)
+	copy(data[len(packedFormat):], w.Data)
 
 	return data, nil
 }
